@@ -45,7 +45,7 @@ func (x *Exec) call(st *State, e *ast.CallExpr) []Val {
 		name := calleeName(e)
 		x.callSeen[name]++
 		for _, g := range x.con.Ghosts {
-			if g.Anchor == "after" && g.Callee == name && g.Ord == x.callSeen[name] && !st.reach.IsFalse() {
+			if g.Anchor == "after" && g.Callee == name && (g.Ord == x.callSeen[name] || g.Ord == 0) && !st.reach.IsFalse() {
 				x.runGhost(st, g)
 			}
 		}
@@ -105,7 +105,7 @@ func (x *Exec) call0(st *State, e *ast.CallExpr) []Val {
 		switch fn.Name() {
 		case "forall", "exists":
 			return []Val{x.quantifier(st, e, fn.Name() == "forall")}
-		case "all", "elems":
+		case "all", "elems", "fieldof":
 			x.fail("%s(...) is only meaningful in a modifies clause", fn.Name())
 		case "allocated":
 			// allocated(p): p is nil or an object that exists in the current state
@@ -134,6 +134,16 @@ func (x *Exec) call0(st *State, e *ast.CallExpr) []Val {
 			a := x.expr(st, e.Args[0])
 			b := x.expr(st, e.Args[1])
 			return []Val{{Typ: types.Typ[types.Bool], T: x.c.Eq(a.Arr, b.Arr)}}
+		}
+		if strings.HasPrefix(fn.Name(), "sameArray") && len(e.Args) == 2 {
+			// sameArrayXxx(a, b) for slices of any one element type (declared per type in the contract file)
+			a := x.expr(st, e.Args[0])
+			b := x.expr(st, e.Args[1])
+			if a.IsSlice() && b.IsSlice() {
+				return []Val{{Typ: types.Typ[types.Bool], T: x.c.Eq(a.Arr, b.Arr)}}
+			}
+		}
+		switch fn.Name() {
 		case "sameSlice":
 			a := x.expr(st, e.Args[0])
 			b := x.expr(st, e.Args[1])
@@ -664,6 +674,38 @@ func (x *Exec) callContract(st *State, con *Contract, recv *Val, args []Val, e *
 			}
 		}
 	}
+	// the callee's receiver, parameters and named results are bound in the caller's variable map
+	// while its clauses are evaluated; for a recursive call these are the caller's own variables,
+	// so whatever is bound here is put back when the call is over
+	type savedVar struct {
+		v  *types.Var
+		ok bool
+		w  Val
+	}
+	var saved []savedVar
+	save := func(v *types.Var) {
+		if v == nil {
+			return
+		}
+		w, ok := st.vars[v]
+		saved = append(saved, savedVar{v, ok, w})
+	}
+	save(sig.Recv())
+	for i := 0; i < sig.Params().Len(); i++ {
+		save(sig.Params().At(i))
+	}
+	for i := 0; i < sig.Results().Len(); i++ {
+		save(sig.Results().At(i))
+	}
+	defer func() {
+		for _, sv := range saved {
+			if sv.ok {
+				st.vars[sv.v] = sv.w
+			} else {
+				delete(st.vars, sv.v)
+			}
+		}
+	}()
 	x.bindParams(st, sig, recv, args)
 	if x.con == con && x.noOblig == 0 {
 		// recursive call: the measure must decrease and stay non-negative
@@ -819,6 +861,24 @@ func (x *Exec) modLocations(pre *State, e ast.Expr) []modLoc {
 					t = p.Elem()
 				}
 				return x.objLocs(v.T, t)
+			case "fieldof":
+				// fieldof(x.f): the scalar field f of every object of x's struct type (coarse; used
+				// where the written objects are elements of nested slices that no designator names)
+				if sel, ok := ast.Unparen(call.Args[0]).(*ast.SelectorExpr); ok {
+					t := x.typeOf(sel.X)
+					if p, ok := t.Underlying().(*types.Pointer); ok {
+						t = p.Elem()
+					}
+					if st, ok := t.Underlying().(*types.Struct); ok {
+						for i := 0; i < st.NumFields(); i++ {
+							f := st.Field(i)
+							if f.Name() == sel.Sel.Name && !isObjType(f.Type()) && !isSliceT(f.Type()) {
+								return []modLoc{{comp: fieldComp(typeKey(t), f.Name()), sort: SArr(SInt, x.scalarSort(f.Type())), whole: true}}
+							}
+						}
+					}
+				}
+				x.fail("fieldof(%s): not a scalar struct field", exprString(call.Args[0]))
 			case "ghostIO":
 				var out []modLoc
 				for _, g := range ghostIOComps {
@@ -1397,6 +1457,15 @@ func (x *Exec) scanModClause(ms *modSet, mc *Clause) {
 				ms.add("ghost.fpos", SArr(SInt, x.idxSort()))
 				return
 			}
+			if id.Name == "fieldof" {
+				sub := x.scanMods(&ast.AssignStmt{Lhs: []ast.Expr{call.Args[0]}, Tok: token.ASSIGN, Rhs: []ast.Expr{call.Args[0]}})
+				sub.vars = map[types.Object]bool{}
+				for k := range sub.comps {
+					sub.imprecise[k] = true
+				}
+				ms.merge(sub)
+				return
+			}
 			t := x.typeOf(call.Args[0])
 			switch id.Name {
 			case "all":
@@ -1517,7 +1586,7 @@ func (p *Program) clauseModeDependent1(cl *Clause) string {
 					}
 					seen[key] = true
 					switch fn.Name() {
-					case "forall", "exists", "all", "elems":
+					case "forall", "exists", "all", "elems", "fieldof":
 						return true
 					}
 					if sc := p.Contracts[key]; sc != nil {
